@@ -62,6 +62,9 @@ def constraint_census(c, facts):
 
 
 def run(c, facts):
+    import c09
+    R10 = c.rule('C07.R10', 'CYCLE-VERDICT: the recursion verdict is a fix-point over the whole graph, independent of the order of declarations (shared with C09.R3)')
+    c.shared(R10, c09.r3_cut_agree, 'C09.R3', facts)
     c.run(lambda c: I.tag_rec(c, facts, c.rule('C07.R1', 'TAG-REC: recursive functions over Tag cover every variant that nests tags')))
     c.run(lambda c: I.occurs_before_union(c, facts, c.rule('C07.R2', 'OCCURS-BEFORE-UNION with polarity')))
     c.run(lambda c: I.var_first(c, facts, c.rule('C07.R3', 'VAR-FIRST: union(var, other)')))
